@@ -8,17 +8,23 @@ Plan of the proofs
                     so the sum over the consecutive cells of a sorted node list telescopes (`sumOv_cells`).
   3. bookkeeping  : row / column / entry sums of the double loop `tessFrom` reduce to sums of `ov`.
   4. dense matrix : row (column) sums of `dense m n T` are `rowSum T` (`colSum T`) when indices are in range.
+  5.-7. 2-D       : shoelace sums along chains; Sutherland–Hodgman against one line is edge-local when the
+                    origin of the shoelace weights is on the line (`area2_clip1`); hence the two sides of a
+                    line add up (`clip12_split`).  Uses the C44 model of the clipping and its convexity theorem.
 -/
 import PorepyVerif.C33.Model
 import Mathlib.Tactic.Linarith
 import Mathlib.Tactic.SplitIfs
 import Mathlib.Tactic.Ring
 import Mathlib.Algebra.Order.Field.Basic
+import Mathlib.Tactic.FieldSimp
+import Mathlib.Tactic.LinearCombination
+import PorepyVerif.C44.Props
 
 namespace PorepyVerif.C33
 
 /-- weight contributed by the pair `(c, d)`: the reported weight, 0 if the pair is not reported -/
-def ov (f : Cell → Cell → Option Rat) (c d : Cell) : Rat := (f c d).getD 0
+def ov {α β : Type} (f : α → β → Option Rat) (c : α) (d : β) : Rat := (f c d).getD 0
 
 /-- the exact pair function (no "end to end" tolerance): reported length of the common part -/
 def pairOverlapX (c d : Cell) : Option Rat :=
@@ -93,12 +99,12 @@ theorem clip_hi (s e x : Rat) (h : s ≤ e) (hx : e ≤ x) : clip s e x = e := b
 /-! ### 2. one cell against a sorted tessellation: telescoping sum -/
 
 /-- `Σ_{d ∈ ds} ov f c d` -/
-def sumOv (f : Cell → Cell → Option Rat) (c : Cell) : List Cell → Rat
+def sumOv {α β : Type} (f : α → β → Option Rat) (c : α) : List β → Rat
   | [] => 0
   | d :: ds => ov f c d + sumOv f c ds
 
 /-- `Σ_{c ∈ cs} ov f c d` -/
-def sumOvL (f : Cell → Cell → Option Rat) (d : Cell) : List Cell → Rat
+def sumOvL {α β : Type} (f : α → β → Option Rat) (d : β) : List α → Rat
   | [] => 0
   | c :: cs => ov f c d + sumOvL f d cs
 
@@ -183,8 +189,8 @@ theorem entry_append (A B : List Triple) (i j : Nat) :
   | nil => simp [entry]
   | cons t A ih => simp only [List.cons_append, entry, ih]; ring
 
-theorem rowTess_bounds (f : Cell → Cell → Option Rat) (hf : ∀ c d w, f c d = some w → 0 ≤ w)
-    (i : Nat) (c : Cell) (ds : List Cell) (j0 : Nat) (t : Triple)
+theorem rowTess_bounds {α β : Type} (f : α → β → Option Rat) (hf : ∀ c d w, f c d = some w → 0 ≤ w)
+    (i : Nat) (c : α) (ds : List β) (j0 : Nat) (t : Triple)
     (ht : t ∈ rowTess f i c j0 ds) : t.1 = i ∧ j0 ≤ t.2.1 ∧ t.2.1 < j0 + ds.length ∧ 0 ≤ t.2.2 := by
   induction ds generalizing j0 with
   | nil => simp [rowTess] at ht
@@ -205,8 +211,8 @@ theorem rowTess_bounds (f : Cell → Cell → Option Rat) (hf : ∀ c d w, f c d
         simp only [List.length_cons]
         exact ⟨h1, by omega, by omega, h4⟩
 
-theorem tess_bounds (f : Cell → Cell → Option Rat) (hf : ∀ c d w, f c d = some w → 0 ≤ w)
-    (cs ds : List Cell) (k : Nat) (t : Triple) (ht : t ∈ tessFrom f k cs ds) :
+theorem tess_bounds {α β : Type} (f : α → β → Option Rat) (hf : ∀ c d w, f c d = some w → 0 ≤ w)
+    (cs : List α) (ds : List β) (k : Nat) (t : Triple) (ht : t ∈ tessFrom f k cs ds) :
     k ≤ t.1 ∧ t.1 < k + cs.length ∧ t.2.1 < ds.length ∧ 0 ≤ t.2.2 := by
   induction cs generalizing k with
   | nil => simp [tessFrom] at ht
@@ -220,7 +226,7 @@ theorem tess_bounds (f : Cell → Cell → Option Rat) (hf : ∀ c d w, f c d = 
       exact ⟨by omega, by omega, h3, h4⟩
 
 /-- the weights a row of the loop reports for its own cell add up to `Σ_d ov f c d` -/
-theorem rowSum_rowTess (f : Cell → Cell → Option Rat) (i : Nat) (c : Cell) (ds : List Cell) (j0 i' : Nat) :
+theorem rowSum_rowTess {α β : Type} (f : α → β → Option Rat) (i : Nat) (c : α) (ds : List β) (j0 i' : Nat) :
     rowSum (rowTess f i c j0 ds) i' = if i = i' then sumOv f c ds else 0 := by
   induction ds generalizing j0 with
   | nil => simp [rowTess, rowSum, sumOv]
@@ -233,7 +239,7 @@ theorem rowSum_rowTess (f : Cell → Cell → Option Rat) (i : Nat) (c : Cell) (
       simp only [rowSum, ih (j0 + 1), sumOv, ov, h, Option.getD_some]
       split_ifs <;> ring
 
-theorem rowSum_tessFrom_lt (f : Cell → Cell → Option Rat) (cs ds : List Cell) (k i : Nat) (h : i < k) :
+theorem rowSum_tessFrom_lt {α β : Type} (f : α → β → Option Rat) (cs : List α) (ds : List β) (k i : Nat) (h : i < k) :
     rowSum (tessFrom f k cs ds) i = 0 := by
   induction cs generalizing k with
   | nil => simp [tessFrom, rowSum]
@@ -241,7 +247,7 @@ theorem rowSum_tessFrom_lt (f : Cell → Cell → Option Rat) (cs ds : List Cell
     simp only [tessFrom, rowSum_append, rowSum_rowTess, ih (k + 1) (by omega)]
     rw [if_neg (by omega)]; ring
 
-theorem rowSum_tessFrom (f : Cell → Cell → Option Rat) (cs ds : List Cell) (k i : Nat) (c : Cell) (hc : cs[i]? = some c) :
+theorem rowSum_tessFrom {α β : Type} (f : α → β → Option Rat) (cs : List α) (ds : List β) (k i : Nat) (c : α) (hc : cs[i]? = some c) :
     rowSum (tessFrom f k cs ds) (k + i) = sumOv f c ds := by
   induction cs generalizing k i with
   | nil => simp at hc
@@ -257,7 +263,7 @@ theorem rowSum_tessFrom (f : Cell → Cell → Option Rat) (cs ds : List Cell) (
       have := ih (k + 1) i hc
       rw [if_neg (by omega), show k + (i + 1) = k + 1 + i by omega, this]; ring
 
-theorem colSum_rowTess_lt (f : Cell → Cell → Option Rat) (i : Nat) (c : Cell) (ds : List Cell) (j0 j : Nat) (h : j < j0) :
+theorem colSum_rowTess_lt {α β : Type} (f : α → β → Option Rat) (i : Nat) (c : α) (ds : List β) (j0 j : Nat) (h : j < j0) :
     colSum (rowTess f i c j0 ds) j = 0 := by
   induction ds generalizing j0 with
   | nil => simp [rowTess, colSum]
@@ -269,7 +275,7 @@ theorem colSum_rowTess_lt (f : Cell → Cell → Option Rat) (i : Nat) (c : Cell
       simp only [colSum, ih (j0 + 1) (by omega)]
       rw [if_neg (by omega)]; ring
 
-theorem colSum_rowTess (f : Cell → Cell → Option Rat) (i : Nat) (c : Cell) (ds : List Cell) (j0 j : Nat) (d : Cell)
+theorem colSum_rowTess {α β : Type} (f : α → β → Option Rat) (i : Nat) (c : α) (ds : List β) (j0 j : Nat) (d : β)
     (hd : ds[j]? = some d) : colSum (rowTess f i c j0 ds) (j0 + j) = ov f c d := by
   induction ds generalizing j0 j with
   | nil => simp at hd
@@ -296,7 +302,7 @@ theorem colSum_rowTess (f : Cell → Cell → Option Rat) (i : Nat) (c : Cell) (
         simp only [colSum, this]
         rw [if_neg (by omega)]; ring
 
-theorem colSum_tessFrom (f : Cell → Cell → Option Rat) (cs ds : List Cell) (k j : Nat) (d : Cell) (hd : ds[j]? = some d) :
+theorem colSum_tessFrom {α β : Type} (f : α → β → Option Rat) (cs : List α) (ds : List β) (k j : Nat) (d : β) (hd : ds[j]? = some d) :
     colSum (tessFrom f k cs ds) j = sumOvL f d cs := by
   induction cs generalizing k with
   | nil => simp [tessFrom, colSum, sumOvL]
@@ -306,7 +312,7 @@ theorem colSum_tessFrom (f : Cell → Cell → Option Rat) (cs ds : List Cell) (
     rw [Nat.zero_add] at this
     rw [this]
 
-theorem entry_rowTess_lt (f : Cell → Cell → Option Rat) (i : Nat) (c : Cell) (ds : List Cell) (j0 i' j : Nat) (h : j < j0) :
+theorem entry_rowTess_lt {α β : Type} (f : α → β → Option Rat) (i : Nat) (c : α) (ds : List β) (j0 i' j : Nat) (h : j < j0) :
     entry (rowTess f i c j0 ds) i' j = 0 := by
   induction ds generalizing j0 with
   | nil => simp [rowTess, entry]
@@ -318,7 +324,7 @@ theorem entry_rowTess_lt (f : Cell → Cell → Option Rat) (i : Nat) (c : Cell)
       simp only [entry, ih (j0 + 1) (by omega)]
       rw [if_neg (by omega)]; ring
 
-theorem entry_rowTess_ne (f : Cell → Cell → Option Rat) (i : Nat) (c : Cell) (ds : List Cell) (j0 i' j : Nat) (h : i ≠ i') :
+theorem entry_rowTess_ne {α β : Type} (f : α → β → Option Rat) (i : Nat) (c : α) (ds : List β) (j0 i' j : Nat) (h : i ≠ i') :
     entry (rowTess f i c j0 ds) i' j = 0 := by
   induction ds generalizing j0 with
   | nil => simp [rowTess, entry]
@@ -330,7 +336,7 @@ theorem entry_rowTess_ne (f : Cell → Cell → Option Rat) (i : Nat) (c : Cell)
       simp only [entry, ih (j0 + 1)]
       rw [if_neg (by intro hh; exact h hh.1)]; ring
 
-theorem entry_rowTess (f : Cell → Cell → Option Rat) (i : Nat) (c : Cell) (ds : List Cell) (j0 j : Nat) (d : Cell)
+theorem entry_rowTess {α β : Type} (f : α → β → Option Rat) (i : Nat) (c : α) (ds : List β) (j0 j : Nat) (d : β)
     (hd : ds[j]? = some d) : entry (rowTess f i c j0 ds) i (j0 + j) = ov f c d := by
   induction ds generalizing j0 j with
   | nil => simp at hd
@@ -357,7 +363,7 @@ theorem entry_rowTess (f : Cell → Cell → Option Rat) (i : Nat) (c : Cell) (d
         simp only [entry, this]
         rw [if_neg (by omega)]; ring
 
-theorem entry_tessFrom_lt (f : Cell → Cell → Option Rat) (cs ds : List Cell) (k i j : Nat) (h : i < k) :
+theorem entry_tessFrom_lt {α β : Type} (f : α → β → Option Rat) (cs : List α) (ds : List β) (k i j : Nat) (h : i < k) :
     entry (tessFrom f k cs ds) i j = 0 := by
   induction cs generalizing k with
   | nil => simp [tessFrom, entry]
@@ -366,7 +372,7 @@ theorem entry_tessFrom_lt (f : Cell → Cell → Option Rat) (cs ds : List Cell)
       entry_rowTess_ne f k c ds 0 i j (by omega)]
     ring
 
-theorem entry_tessFrom (f : Cell → Cell → Option Rat) (cs ds : List Cell) (k i j : Nat) (c d : Cell) (hc : cs[i]? = some c)
+theorem entry_tessFrom {α β : Type} (f : α → β → Option Rat) (cs : List α) (ds : List β) (k i j : Nat) (c : α) (d : β) (hc : cs[i]? = some c)
     (hd : ds[j]? = some d) : entry (tessFrom f k cs ds) (k + i) j = ov f c d := by
   induction cs generalizing k i with
   | nil => simp at hc
@@ -437,7 +443,7 @@ theorem pairOverlap_eq_X (ptol : Rat) (c d : Cell) (hc : c.1 ≤ c.2) (hd : d.1 
       | (rcases h21 with h | h <;> linarith)
       | (rcases h22 with h | h <;> linarith)
 
-theorem rowTess_congr (f g : Cell → Cell → Option Rat) (i : Nat) (c : Cell) (ds : List Cell) (j0 : Nat)
+theorem rowTess_congr {α β : Type} (f g : α → β → Option Rat) (i : Nat) (c : α) (ds : List β) (j0 : Nat)
     (h : ∀ d ∈ ds, f c d = g c d) : rowTess f i c j0 ds = rowTess g i c j0 ds := by
   induction ds generalizing j0 with
   | nil => rfl
@@ -445,7 +451,7 @@ theorem rowTess_congr (f g : Cell → Cell → Option Rat) (i : Nat) (c : Cell) 
     unfold rowTess
     rw [h d List.mem_cons_self, ih (j0 + 1) (fun d' hd' => h d' (List.mem_cons_of_mem _ hd'))]
 
-theorem tessFrom_congr (f g : Cell → Cell → Option Rat) (cs ds : List Cell) (k : Nat)
+theorem tessFrom_congr {α β : Type} (f g : α → β → Option Rat) (cs : List α) (ds : List β) (k : Nat)
     (h : ∀ c ∈ cs, ∀ d ∈ ds, f c d = g c d) : tessFrom f k cs ds = tessFrom g k cs ds := by
   induction cs generalizing k with
   | nil => rfl
@@ -669,5 +675,493 @@ theorem colSum_scale_col (v : Nat → Rat) (T : List Triple) (j : Nat) :
 
 theorem cellVol_of_le (c : Cell) (h : c.1 ≤ c.2) : cellVol c = c.2 - c.1 := by
   unfold cellVol dist; rw [if_pos h]
+
+
+open PorepyVerif.C44 (Pt HP cross area2 edges edgesAux shEdge2 walk2 shClip12 shClip2 lerp2 leftOf InPoly
+  ConvexCCW halfPlanes)
+
+/-! ### 5. shoelace sums along chains -/
+
+/-- sum of `w` over the consecutive pairs of the open chain `p, x₁, x₂, …` -/
+def pathSum (w : Pt → Pt → Rat) : Pt → List Pt → Rat
+  | _, [] => 0
+  | p, x :: xs => w p x + pathSum w x xs
+
+/-- sum of `w` over the edges of the closed polygon -/
+def cycSum (w : Pt → Pt → Rat) : List Pt → Rat
+  | [] => 0
+  | a :: rest => pathSum w a (rest ++ [a])
+
+def lastD : Pt → List Pt → Pt
+  | p, [] => p
+  | _, x :: xs => lastD x xs
+
+/-- shoelace weight with respect to the origin `O` -/
+def wO (O A B : Pt) : Rat := cross (A.sub O) (B.sub O)
+
+theorem pathSum_append (w : Pt → Pt → Rat) (p : Pt) (A B : List Pt) :
+    pathSum w p (A ++ B) = pathSum w p A + pathSum w (lastD p A) B := by
+  induction A generalizing p with
+  | nil => simp [pathSum, lastD]
+  | cons x A ih => simp only [List.cons_append, pathSum, lastD, ih]; ring
+
+theorem lastD_append (p : Pt) (A B : List Pt) : lastD p (A ++ B) = lastD (lastD p A) B := by
+  induction A generalizing p with
+  | nil => rfl
+  | cons x A ih => simp only [List.cons_append, lastD, ih]
+
+theorem lastD_snoc (p a : Pt) (A : List Pt) : lastD p (A ++ [a]) = a := by
+  rw [lastD_append]; rfl
+
+theorem foldl_add_eq (l : List Rat) (a : Rat) : l.foldl (· + ·) a = a + l.sum := by
+  induction l generalizing a with
+  | nil => simp
+  | cons x l ih => simp only [List.foldl_cons, List.sum_cons, ih]; ring
+
+theorem sum_edgesAux (w : Pt → Pt → Rat) (first p : Pt) (l : List Pt) :
+    ((edgesAux first (p :: l)).map (fun e => w e.1 e.2)).sum = pathSum w p (l ++ [first]) := by
+  induction l generalizing p with
+  | nil => simp [edgesAux, pathSum]
+  | cons x l ih =>
+    simp only [edgesAux, List.map_cons, List.sum_cons, List.cons_append, pathSum]
+    rw [ih x]
+
+theorem sum_edges (w : Pt → Pt → Rat) (L : List Pt) :
+    ((edges L).map (fun e => w e.1 e.2)).sum = cycSum w L := by
+  cases L with
+  | nil => simp [edges, cycSum]
+  | cons a rest => simp only [edges, cycSum]; exact sum_edgesAux w a a rest
+
+theorem area2_eq_cycSum (L : List Pt) : area2 L = cycSum cross L := by
+  unfold area2
+  rw [foldl_add_eq, zero_add]
+  exact sum_edges cross L
+
+theorem wO_eq (O A B : Pt) : wO O A B = cross A B + cross O A - cross O B := by
+  simp only [wO, cross, Pt.sub]; ring
+
+theorem pathSum_wO (O p : Pt) (l : List Pt) :
+    pathSum (wO O) p l = pathSum cross p l + cross O p - cross O (lastD p l) := by
+  induction l generalizing p with
+  | nil => simp [pathSum, lastD]
+  | cons x l ih => simp only [pathSum, lastD, ih, wO_eq]; ring
+
+/-- the shoelace sum of a closed polygon does not depend on the origin -/
+theorem cycSum_wO (O : Pt) (L : List Pt) : cycSum (wO O) L = area2 L := by
+  rw [area2_eq_cycSum]
+  cases L with
+  | nil => rfl
+  | cons a rest =>
+    simp only [cycSum]
+    rw [pathSum_wO, lastD_snoc]; ring
+
+theorem wO_eq_leftOf (V A B : Pt) : wO V A B = leftOf A B V := by
+  simp only [wO, leftOf, cross, Pt.sub]; ring
+
+/-- a convex counter-clockwise polygon has non-negative shoelace area -/
+theorem area2_nonneg_of_convex (L : List Pt) (hc : ConvexCCW L) : 0 ≤ area2 L := by
+  cases L with
+  | nil => simp [area2, edges]
+  | cons a rest =>
+    rw [← cycSum_wO a, ← sum_edges]
+    apply List.sum_nonneg
+    intro x hx
+    obtain ⟨e, he, rfl⟩ := List.mem_map.mp hx
+    show 0 ≤ wO a e.1 e.2
+    rw [wO_eq_leftOf]
+    exact hc a (by simp) e he
+
+/-! ### 6. Sutherland–Hodgman against one line: the shoelace sum of the output is edge-local
+
+With the origin of the shoelace weights ON the cutting line, the chords the algorithm inserts along the
+line have weight 0 (`W1`), so the area of the clipped polygon is the sum over the INPUT edges of the
+weight of the part of the edge inside the half-plane (`cIn`). -/
+
+/-- weight of the part of the edge `P → Q` inside the half-plane `h` -/
+def cIn (w : Pt → Pt → Rat) (h : HP) (P Q : Pt) : Rat :=
+  if h.eval P ≤ 0 then
+    (if h.eval P < 0 ∧ 0 < h.eval Q then w P (lerp2 P Q (h.eval P / (h.eval P - h.eval Q)))
+     else if h.eval Q ≤ 0 then w P Q else 0)
+  else (if h.eval Q < 0 then w (lerp2 P Q (h.eval P / (h.eval P - h.eval Q))) Q else 0)
+
+def chainC (w : Pt → Pt → Rat) (h : HP) : Pt → List Pt → Rat
+  | _, [] => 0
+  | p, q :: l => cIn w h p q + chainC w h q l
+
+/-- the last vertex of the chain, if it is inside: it is emitted by the NEXT step of the walk -/
+def finalIn (h : HP) (cur : Pt) (nxts : List Pt) : List Pt :=
+  if h.eval (lastD cur nxts) ≤ 0 then [lastD cur nxts] else []
+
+theorem eval_cross_pt (h : HP) (P Q : Pt) (hne : h.eval P ≠ h.eval Q) :
+    h.eval (lerp2 P Q (h.eval P / (h.eval P - h.eval Q))) = 0 := by
+  rw [C44.eval_lerp2]
+  have : h.eval P - h.eval Q ≠ 0 := sub_ne_zero.mpr hne
+  field_simp
+  ring
+
+theorem finalIn_cons (h : HP) (cur n : Pt) (rest : List Pt) :
+    finalIn h cur (n :: rest) = finalIn h n rest := rfl
+
+/-- invariant of the walk: `E` = last vertex emitted before, on the line whenever `cur` is outside -/
+theorem walk_inv (w : Pt → Pt → Rat) (h : HP)
+    (W1 : ∀ A B, h.eval A = 0 → h.eval B = 0 → w A B = 0)
+    (nxts : List Pt) (cur E : Pt) (hE : 0 < h.eval cur → h.eval E = 0) :
+    pathSum w E (walk2 h cur nxts ++ finalIn h cur nxts)
+      = (if h.eval cur ≤ 0 then w E cur else 0) + chainC w h cur nxts := by
+  induction nxts generalizing cur E with
+  | nil =>
+    show pathSum w E ([] ++ (if h.eval cur ≤ 0 then [cur] else [])) = _
+    simp only [List.nil_append, chainC, add_zero]
+    split_ifs <;> simp [pathSum]
+  | cons n rest ih =>
+    simp only [walk2, finalIn_cons, chainC, List.append_assoc]
+    rw [pathSum_append]
+    rcases lt_trichotomy (h.eval cur) 0 with hp | hp | hp
+    · -- cur strictly inside
+      rcases lt_trichotomy (h.eval n) 0 with hq | hq | hq
+      · have e : shEdge2 h cur n = [cur] := by
+          simp [shEdge2, le_of_lt hp, not_lt_of_gt hq, not_lt_of_gt hp]
+        rw [e]; simp only [lastD]; rw [ih n cur (fun hn => absurd hn (not_lt_of_gt hq))]
+        simp [pathSum, cIn, le_of_lt hp, le_of_lt hq, not_lt_of_gt hq]
+      · have e : shEdge2 h cur n = [cur] := by
+          simp [shEdge2, le_of_lt hp, hq, not_lt_of_gt hp]
+        rw [e]; simp only [lastD]; rw [ih n cur (fun hn => absurd hn (by rw [hq]; exact lt_irrefl _))]
+        simp [pathSum, cIn, le_of_lt hp, hq]
+      · have hne : h.eval cur ≠ h.eval n := by linarith
+        have e : shEdge2 h cur n = [cur, lerp2 cur n (h.eval cur / (h.eval cur - h.eval n))] := by
+          simp [shEdge2, le_of_lt hp, hp, hq]
+        rw [e]; simp only [lastD]; rw [ih n _ (fun _ => eval_cross_pt h cur n hne)]
+        simp [pathSum, cIn, le_of_lt hp, hp, hq, not_le_of_gt hq]
+        ring
+    · -- cur on the line
+      rcases lt_trichotomy (h.eval n) 0 with hq | hq | hq
+      · have e : shEdge2 h cur n = [cur] := by
+          simp [shEdge2, hp, not_lt_of_gt hq]
+        rw [e]; simp only [lastD]; rw [ih n cur (fun hn => absurd hn (not_lt_of_gt hq))]
+        simp [pathSum, cIn, hp, le_of_lt hq, not_lt_of_gt hq]
+      · have e : shEdge2 h cur n = [cur] := by
+          simp [shEdge2, hp, hq]
+        rw [e]; simp only [lastD]; rw [ih n cur (fun hn => absurd hn (by rw [hq]; exact lt_irrefl _))]
+        simp [pathSum, cIn, hp, hq]
+      · have e : shEdge2 h cur n = [cur] := by
+          simp [shEdge2, hp, hq]
+        rw [e]; simp only [lastD]; rw [ih n cur (fun _ => hp)]
+        simp [pathSum, cIn, hp, hq, not_le_of_gt hq]
+    · -- cur strictly outside: `E` is on the line
+      have hE0 := hE hp
+      rcases lt_trichotomy (h.eval n) 0 with hq | hq | hq
+      · have hne : h.eval cur ≠ h.eval n := by linarith
+        have e : shEdge2 h cur n = [lerp2 cur n (h.eval cur / (h.eval cur - h.eval n))] := by
+          simp [shEdge2, not_le_of_gt hp, hp, hq, not_lt_of_gt hp]
+        rw [e]; simp only [lastD]; rw [ih n _ (fun hn => absurd hn (not_lt_of_gt hq))]
+        simp [pathSum, cIn, not_le_of_gt hp, hq, le_of_lt hq,
+          W1 E _ hE0 (eval_cross_pt h cur n hne)]
+      · have e : shEdge2 h cur n = [] := by
+          simp [shEdge2, not_le_of_gt hp, hq, not_lt_of_gt hp]
+        rw [e]; simp only [lastD]; rw [ih n E (fun _ => hE0)]
+        simp [pathSum, cIn, not_le_of_gt hp, hq, W1 E n hE0 hq]
+      · have e : shEdge2 h cur n = [] := by
+          simp [shEdge2, not_le_of_gt hp, not_lt_of_gt hq, not_lt_of_gt hp]
+        rw [e]; simp only [lastD]; rw [ih n E (fun _ => hE0)]
+        simp [pathSum, cIn, not_le_of_gt hp, not_le_of_gt hq, not_lt_of_gt hq]
+
+/-- a walk that starts inside emits its start first -/
+theorem walk_head_in (h : HP) (cur n : Pt) (rest : List Pt) (hin : h.eval cur ≤ 0) :
+    ∃ tl, walk2 h cur (n :: rest) = cur :: tl := by
+  simp only [walk2, shEdge2, if_pos hin]
+  exact ⟨_, rfl⟩
+
+/-- a walk that starts strictly outside emits a point of the line first (if anything) -/
+theorem walk_head_out (h : HP) (nxts : List Pt) (cur : Pt) (hout : 0 < h.eval cur) (F : Pt) (tl : List Pt)
+    (hw : walk2 h cur nxts = F :: tl) : h.eval F = 0 := by
+  induction nxts generalizing cur with
+  | nil => simp [walk2] at hw
+  | cons n rest ih =>
+    simp only [walk2] at hw
+    rcases lt_trichotomy (h.eval n) 0 with hq | hq | hq
+    · have hne : h.eval cur ≠ h.eval n := by linarith
+      have e : shEdge2 h cur n = [lerp2 cur n (h.eval cur / (h.eval cur - h.eval n))] := by
+        simp [shEdge2, not_le_of_gt hout, hout, hq, not_lt_of_gt hout]
+      rw [e] at hw
+      simp only [List.singleton_append, List.cons.injEq] at hw
+      rw [← hw.1]; exact eval_cross_pt h cur n hne
+    · have e : shEdge2 h cur n = [] := by
+        simp [shEdge2, not_le_of_gt hout, hq, not_lt_of_gt hout]
+      rw [e, List.nil_append] at hw
+      cases rest with
+      | nil => simp [walk2] at hw
+      | cons m r =>
+        obtain ⟨tl', htl⟩ := walk_head_in h n m r (le_of_eq hq)
+        rw [htl] at hw
+        simp only [List.cons.injEq] at hw
+        rw [← hw.1]; exact hq
+    · have e : shEdge2 h cur n = [] := by
+        simp [shEdge2, not_le_of_gt hout, not_lt_of_gt hq, not_lt_of_gt hout]
+      rw [e, List.nil_append] at hw
+      exact ih n hq hw
+
+/-- if the chain ends strictly outside, the last emitted vertex is on the line -/
+theorem walk_last_out (h : HP) (nxts : List Pt) (cur E : Pt) (hE : 0 < h.eval cur → h.eval E = 0)
+    (hfin : 0 < h.eval (lastD cur nxts)) : h.eval (lastD E (walk2 h cur nxts)) = 0 := by
+  induction nxts generalizing cur E with
+  | nil => exact hE hfin
+  | cons n rest ih =>
+    simp only [walk2, lastD_append]
+    have hfin' : 0 < h.eval (lastD n rest) := hfin
+    rcases lt_trichotomy (h.eval cur) 0 with hp | hp | hp
+    · rcases lt_trichotomy (h.eval n) 0 with hq | hq | hq
+      · have e : shEdge2 h cur n = [cur] := by
+          simp [shEdge2, le_of_lt hp, not_lt_of_gt hq, not_lt_of_gt hp]
+        rw [e]; exact ih n _ (fun hn => absurd hn (not_lt_of_gt hq)) hfin'
+      · have e : shEdge2 h cur n = [cur] := by
+          simp [shEdge2, le_of_lt hp, hq, not_lt_of_gt hp]
+        rw [e]; exact ih n _ (fun hn => absurd hn (by rw [hq]; exact lt_irrefl _)) hfin'
+      · have hne : h.eval cur ≠ h.eval n := by linarith
+        have e : shEdge2 h cur n = [cur, lerp2 cur n (h.eval cur / (h.eval cur - h.eval n))] := by
+          simp [shEdge2, le_of_lt hp, hp, hq]
+        rw [e]; exact ih n _ (fun _ => eval_cross_pt h cur n hne) hfin'
+    · rcases lt_trichotomy (h.eval n) 0 with hq | hq | hq
+      · have e : shEdge2 h cur n = [cur] := by simp [shEdge2, hp, not_lt_of_gt hq]
+        rw [e]; exact ih n _ (fun hn => absurd hn (not_lt_of_gt hq)) hfin'
+      · have e : shEdge2 h cur n = [cur] := by simp [shEdge2, hp, hq]
+        rw [e]; exact ih n _ (fun hn => absurd hn (by rw [hq]; exact lt_irrefl _)) hfin'
+      · have e : shEdge2 h cur n = [cur] := by simp [shEdge2, hp, hq]
+        rw [e]; exact ih n _ (fun _ => hp) hfin'
+    · have hE0 := hE hp
+      rcases lt_trichotomy (h.eval n) 0 with hq | hq | hq
+      · have hne : h.eval cur ≠ h.eval n := by linarith
+        have e : shEdge2 h cur n = [lerp2 cur n (h.eval cur / (h.eval cur - h.eval n))] := by
+          simp [shEdge2, not_le_of_gt hp, hp, hq, not_lt_of_gt hp]
+        rw [e]; exact ih n _ (fun hn => absurd hn (not_lt_of_gt hq)) hfin'
+      · have e : shEdge2 h cur n = [] := by
+          simp [shEdge2, not_le_of_gt hp, hq, not_lt_of_gt hp]
+        rw [e]; exact ih n _ (fun _ => hE0) hfin'
+      · have e : shEdge2 h cur n = [] := by
+          simp [shEdge2, not_le_of_gt hp, not_lt_of_gt hq, not_lt_of_gt hp]
+        rw [e]; exact ih n _ (fun _ => hE0) hfin'
+
+theorem wO_self_left (O X : Pt) : wO O O X = 0 := by simp [wO, cross, Pt.sub]
+theorem wO_diag (O X : Pt) : wO O X X = 0 := by simp only [wO, cross, Pt.sub]; ring
+
+/-- shoelace weights with the origin on the line vanish between points of the line -/
+theorem wO_on_line (h : HP) (hnd : nondeg h = true) (O : Pt) (hO : h.eval O = 0) (A B : Pt)
+    (hA : h.eval A = 0) (hB : h.eval B = 0) : wO O A B = 0 := by
+  simp only [HP.eval] at hO hA hB
+  simp only [nondeg, Bool.not_eq_true', Bool.and_eq_false_iff, decide_eq_false_iff_not] at hnd
+  simp only [wO, cross, Pt.sub]
+  -- (A - O) and (B - O) are both orthogonal to (a, b) ≠ 0, hence parallel
+  have h1 : h.a * (A.x - O.x) + h.b * (A.y - O.y) = 0 := by linarith
+  have h2 : h.a * (B.x - O.x) + h.b * (B.y - O.y) = 0 := by linarith
+  rcases hnd with ha | hb
+  · have : h.a * ((A.x - O.x) * (B.y - O.y) - (A.y - O.y) * (B.x - O.x)) = 0 := by
+      linear_combination (B.y - O.y) * h1 - (A.y - O.y) * h2
+    rcases mul_eq_zero.mp this with h0 | h0
+    · exact absurd h0 ha
+    · exact h0
+  · have : h.b * ((A.x - O.x) * (B.y - O.y) - (A.y - O.y) * (B.x - O.x)) = 0 := by
+      linear_combination (A.x - O.x) * h2 - (B.x - O.x) * h1
+    rcases mul_eq_zero.mp this with h0 | h0
+    · exact absurd h0 hb
+    · exact h0
+
+/-- a point on the boundary line of a non-degenerate half-plane -/
+def linePt (h : HP) : Pt := ⟨h.a * h.c / (h.a * h.a + h.b * h.b), h.b * h.c / (h.a * h.a + h.b * h.b)⟩
+
+theorem eval_linePt (h : HP) (hnd : nondeg h = true) : h.eval (linePt h) = 0 := by
+  simp only [nondeg, Bool.not_eq_true', Bool.and_eq_false_iff, decide_eq_false_iff_not] at hnd
+  have hpos : h.a * h.a + h.b * h.b ≠ 0 := by
+    rcases hnd with ha | hb
+    · have := mul_self_pos.mpr ha; nlinarith [mul_self_nonneg h.b]
+    · have := mul_self_pos.mpr hb; nlinarith [mul_self_nonneg h.a]
+  simp only [HP.eval, linePt]
+  have e : h.a * (h.a * h.c / (h.a * h.a + h.b * h.b)) + h.b * (h.b * h.c / (h.a * h.a + h.b * h.b)) - h.c
+      = h.c * ((h.a * h.a + h.b * h.b) / (h.a * h.a + h.b * h.b)) - h.c := by ring
+  rw [e, div_self hpos]; ring
+
+/-- EDGE-LOCAL FORMULA: the shoelace area of the polygon clipped by one half-plane is the sum over the
+    input edges of the weight of their inside parts (origin `O` on the line) -/
+theorem area2_clip1 (h : HP) (hnd : nondeg h = true) (O : Pt) (hO : h.eval O = 0) (a : Pt) (rest : List Pt) :
+    area2 (shClip12 h (a :: rest)) = chainC (wO O) h a (rest ++ [a]) := by
+  have W1 := wO_on_line h hnd O hO
+  rw [← cycSum_wO O]
+  simp only [shClip12]
+  rcases le_or_gt (h.eval a) 0 with hin | hout
+  · -- start vertex inside: it is the first output vertex
+    have inv := walk_inv (wO O) h W1 (rest ++ [a]) a a (fun hc => absurd hc (not_lt_of_ge hin))
+    have hfin : finalIn h a (rest ++ [a]) = [a] := by
+      simp only [finalIn, lastD_snoc, if_pos hin]
+    rw [hfin, if_pos hin, wO_diag, zero_add] at inv
+    obtain ⟨tl, htl⟩ : ∃ tl, walk2 h a (rest ++ [a]) = a :: tl := by
+      cases rest with
+      | nil => exact walk_head_in h a a [] hin
+      | cons m r => exact walk_head_in h a m (r ++ [a]) hin
+    rw [htl] at inv ⊢
+    simp only [cycSum]
+    simp only [List.cons_append, pathSum, wO_diag, zero_add] at inv
+    exact inv
+  · -- start vertex strictly outside
+    have inv := walk_inv (wO O) h W1 (rest ++ [a]) a O (fun _ => hO)
+    have hfin : finalIn h a (rest ++ [a]) = [] := by
+      simp only [finalIn, lastD_snoc, if_neg (not_le_of_gt hout)]
+    rw [hfin, if_neg (not_le_of_gt hout), zero_add, List.append_nil] at inv
+    cases hw : walk2 h a (rest ++ [a]) with
+    | nil => rw [hw] at inv; simp only [pathSum] at inv; simp only [cycSum]; exact inv
+    | cons F tl =>
+      have hF := walk_head_out h (rest ++ [a]) a hout F tl hw
+      have hL := walk_last_out h (rest ++ [a]) a O (fun _ => hO) (by rw [lastD_snoc]; exact hout)
+      rw [hw] at inv hL
+      simp only [pathSum, wO_self_left, zero_add] at inv
+      simp only [lastD] at hL
+      simp only [cycSum]
+      rw [pathSum_append, inv.symm.symm]
+      simp only [pathSum, add_zero]
+      rw [W1 _ _ hL hF, add_zero]
+
+/-! ### 7. splitting by a line preserves the total area -/
+
+theorem eval_negHP (h : HP) (X : Pt) : (negHP h).eval X = -h.eval X := by
+  simp only [negHP, HP.eval]; ring
+
+theorem nondeg_negHP (h : HP) (hnd : nondeg h = true) : nondeg (negHP h) = true := by
+  simp only [nondeg, negHP, Bool.not_eq_true', Bool.and_eq_false_iff, decide_eq_false_iff_not,
+    neg_eq_zero] at hnd ⊢
+  exact hnd
+
+theorem wO_split (O P Q : Pt) (t : Rat) : wO O P (lerp2 P Q t) + wO O (lerp2 P Q t) Q = wO O P Q := by
+  simp only [wO, cross, Pt.sub, lerp2]; ring
+
+theorem cross_param_neg (p q : Rat) : (-p) / (-p - -q) = p / (p - q) := by
+  rw [show -p - -q = -(p - q) by ring, neg_div_neg_eq]
+
+set_option linter.unusedSimpArgs false in
+/-- the inside parts of an edge with respect to a half-plane and its complement make up the edge -/
+theorem cIn_split (h : HP) (O : Pt) (W1 : ∀ A B, h.eval A = 0 → h.eval B = 0 → wO O A B = 0) (P Q : Pt) :
+    cIn (wO O) h P Q + cIn (wO O) (negHP h) P Q = wO O P Q := by
+  simp only [cIn, eval_negHP, cross_param_neg, neg_nonpos, neg_neg_iff_pos, neg_pos, Left.neg_neg_iff]
+  rcases lt_trichotomy (h.eval P) 0 with hp | hp | hp <;>
+    rcases lt_trichotomy (h.eval Q) 0 with hq | hq | hq
+  · simp [le_of_lt hp, le_of_lt hq, not_lt_of_gt hq, not_le_of_gt hp, not_le_of_gt hq, not_lt_of_gt hp]
+  · simp [le_of_lt hp, hq, not_le_of_gt hp, not_lt_of_gt hp]
+  · simp [le_of_lt hp, hp, hq, not_le_of_gt hp, not_le_of_gt hq, not_lt_of_gt hp, not_lt_of_gt hq]
+    exact wO_split O P Q _
+  · simp [hp, le_of_lt hq, not_lt_of_gt hq, not_le_of_gt hq]
+  · simp [hp, hq, W1 P Q hp hq]
+  · simp [hp, hq, not_le_of_gt hq, le_of_lt hq]
+  · simp [not_le_of_gt hp, hq, le_of_lt hp, hp, not_lt_of_gt hp, not_lt_of_gt hq, le_of_lt hq]
+    rw [add_comm]; exact wO_split O P Q _
+  · simp [not_le_of_gt hp, hq, le_of_lt hp, not_lt_of_gt hp]
+  · simp [not_le_of_gt hp, not_lt_of_gt hq, le_of_lt hp, le_of_lt hq, not_lt_of_gt hp]
+
+theorem chainC_split (h : HP) (O : Pt) (W1 : ∀ A B, h.eval A = 0 → h.eval B = 0 → wO O A B = 0)
+    (p : Pt) (l : List Pt) :
+    chainC (wO O) h p l + chainC (wO O) (negHP h) p l = pathSum (wO O) p l := by
+  induction l generalizing p with
+  | nil => simp [chainC, pathSum]
+  | cons q l ih =>
+    simp only [chainC, pathSum]
+    rw [← ih q, ← cIn_split h O W1 p q]; ring
+
+/-- SPLIT: clipping a polygon (any closed vertex list) by a half-plane and by the complementary
+    half-plane gives two polygons whose shoelace areas add up to that of the polygon -/
+theorem clip12_split (h : HP) (hnd : nondeg h = true) (L : List Pt) :
+    area2 (shClip12 h L) + area2 (shClip12 (negHP h) L) = area2 L := by
+  cases L with
+  | nil => simp [shClip12, area2, edges]
+  | cons a rest =>
+    have hO := eval_linePt h hnd
+    have hO' : (negHP h).eval (linePt h) = 0 := by rw [eval_negHP, hO, neg_zero]
+    rw [area2_clip1 h hnd (linePt h) hO, area2_clip1 (negHP h) (nondeg_negHP h hnd) (linePt h) hO',
+      chainC_split h (linePt h) (wO_on_line h hnd (linePt h) hO), ← cycSum_wO (linePt h)]
+    rfl
+
+theorem shClip2_snoc (hs : List HP) (h : HP) (S : List Pt) :
+    shClip2 (hs ++ [h]) S = shClip12 h (shClip2 hs S) := by
+  induction hs generalizing S with
+  | nil => rfl
+  | cons g hs ih => simp only [List.cons_append, shClip2, ih]
+
+theorem clipArea2_split (hs : List HP) (h : HP) (hnd : nondeg h = true) (S : List Pt) :
+    clipArea2 (hs ++ [h]) S + clipArea2 (hs ++ [negHP h]) S = clipArea2 hs S := by
+  simp only [clipArea2, shClip2_snoc]
+  exact clip12_split h hnd _
+
+theorem convex_shClip2 (hs : List HP) (S : List Pt) (hc : ConvexCCW S) : ConvexCCW (shClip2 hs S) := by
+  induction hs generalizing S with
+  | nil => exact hc
+  | cons h hs ih => simp only [shClip2]; exact ih _ (C44.sh2_convex1 h S hc)
+
+theorem rabs_nonneg (x : Rat) : 0 ≤ rabs x := by
+  unfold rabs; split_ifs <;> linarith
+
+theorem rabs_of_nonneg (x : Rat) (h : 0 ≤ x) : rabs x = x := by
+  unfold rabs; rw [if_pos h]
+
+
+/-! ### 8. the double loop of `triangulations` -/
+
+theorem commonArea_nonneg (S T : Poly) : 0 ≤ commonArea S T := by
+  unfold commonArea
+  exact div_nonneg (rabs_nonneg _) (by norm_num)
+
+theorem triPair_pos (S T : Poly) (w : Rat) (h : triPair S T = some w) : 0 < w := by
+  unfold triPair at h
+  split_ifs at h with h1 h2
+  cases h; exact h2
+
+theorem ov_triPair (S T : Poly) :
+    ov triPair S T = if outsideBox S T = true then 0 else commonArea S T := by
+  unfold ov triPair
+  split_ifs with h1 h2
+  · rfl
+  · rfl
+  · simp only [Option.getD_none]
+    linarith [commonArea_nonneg S T]
+
+theorem rowTess_mem_val {α β : Type} (f : α → β → Option Rat) (i : Nat) (c : α) (ds : List β) (j0 : Nat)
+    (t : Triple) (ht : t ∈ rowTess f i c j0 ds) : ∃ d ∈ ds, f c d = some t.2.2 := by
+  induction ds generalizing j0 with
+  | nil => simp [rowTess] at ht
+  | cons d ds ih =>
+    unfold rowTess at ht
+    cases h : f c d with
+    | none =>
+      rw [h] at ht
+      obtain ⟨d', hd', hv⟩ := ih (j0 + 1) ht
+      exact ⟨d', List.mem_cons_of_mem _ hd', hv⟩
+    | some w =>
+      rw [h] at ht
+      simp only [List.mem_cons] at ht
+      rcases ht with rfl | ht
+      · exact ⟨d, List.mem_cons_self, h⟩
+      · obtain ⟨d', hd', hv⟩ := ih (j0 + 1) ht
+        exact ⟨d', List.mem_cons_of_mem _ hd', hv⟩
+
+theorem tess_mem_val {α β : Type} (f : α → β → Option Rat) (cs : List α) (ds : List β) (k : Nat)
+    (t : Triple) (ht : t ∈ tessFrom f k cs ds) : ∃ c ∈ cs, ∃ d ∈ ds, f c d = some t.2.2 := by
+  induction cs generalizing k with
+  | nil => simp [tessFrom] at ht
+  | cons c cs ih =>
+    simp only [tessFrom, List.mem_append] at ht
+    rcases ht with ht | ht
+    · obtain ⟨d, hd, hv⟩ := rowTess_mem_val f k c ds 0 t ht
+      exact ⟨c, List.mem_cons_self, d, hd, hv⟩
+    · obtain ⟨c', hc', d, hd, hv⟩ := ih (k + 1) ht
+      exact ⟨c', List.mem_cons_of_mem _ hc', d, hd, hv⟩
+
+theorem sumOv_eq_sum {α β : Type} (f : α → β → Option Rat) (c : α) (ds : List β) :
+    sumOv f c ds = (ds.map (fun d => ov f c d)).sum := by
+  induction ds with
+  | nil => rfl
+  | cons d ds ih => simp only [sumOv, List.map_cons, List.sum_cons, ih]
+
+theorem sumOvL_eq_sum {α β : Type} (f : α → β → Option Rat) (d : β) (cs : List α) :
+    sumOvL f d cs = (cs.map (fun c => ov f c d)).sum := by
+  induction cs with
+  | nil => rfl
+  | cons c cs ih => simp only [sumOvL, List.map_cons, List.sum_cons, ih]
+
+theorem getD_map_polyArea (ps : List Poly) (i : Nat) (S : Poly) (h : ps[i]? = some S) :
+    (ps.map polyArea).getD i 0 = polyArea S := by
+  rw [List.getD_eq_getElem?_getD, List.getElem?_map, h]; rfl
 
 end PorepyVerif.C33
